@@ -228,6 +228,56 @@ func TestC03(t *testing.T) {
 			}
 		}
 	}
+	// named constants as inputs: the exported white points (as XYZ) and the XYZ / RGB of every space's white and
+	// primaries, each also one ulp away in every component - the values a shortcut would be keyed on
+	{
+		var named [][3]float32
+		for _, w := range []ciexyz.Color{ciexyz.D50, ciexyz.D65} {
+			named = append(named, [3]float32{w.X, w.Y, w.Z})
+		}
+		for i := range sp.Spaces {
+			a := &sp.Spaces[i]
+			for _, e := range [][3]float32{{1, 1, 1}, {1, 0, 0}, {0, 1, 0}, {0, 0, 1}} {
+				x := a.ToXYZ(linear.RGB{R: e[0], G: e[1], B: e[2]})
+				named = append(named, [3]float32{x.X, x.Y, x.Z}, e)
+			}
+			w := a.White()
+			named = append(named, [3]float32{w.X / w.Y, 1, (1 - w.X - w.Y) / w.Y})
+		}
+		ulp := func(v float32, d int) float32 {
+			switch {
+			case d > 0:
+				return math.Nextafter32(v, float32(math.Inf(1)))
+			case d < 0:
+				return math.Nextafter32(v, float32(math.Inf(-1)))
+			}
+			return v
+		}
+		var nn int64
+		for i := range sp.Spaces {
+			a := &sp.Spaces[i]
+			bad := map[string]bool{}
+			for _, v := range named {
+				for _, d := range []int{0, 1, -1} {
+					c := Case{a.Name, "", [3]float32{ulp(v[0], d), v[1], ulp(v[2], -d)}}
+					for _, dir := range []string{"toXYZ", "fromXYZ", "rt-rgb", "rt-xyz", "mutated"} {
+						c.Dir = dir
+						ev.Eval(1)
+						nn++
+						if bad[dir] {
+							continue
+						}
+						if k, w := check(c); k != "" {
+							bad[dir] = true
+							ev.Violation("xyz", a.Name+"/"+k, w, c)
+						}
+					}
+				}
+			}
+		}
+		ev.NTAdd(nn)
+		ev.Class("named-constants", nn)
+	}
 	ev.Class("special-value-triples", int64(4*len(sv)*len(sv)*len(sv)*4))
 	// rapid triples in [-1,2]^3
 	ev.RapidChecks(ev.Pick(10000, 1000000))
